@@ -37,6 +37,7 @@ type Prog struct {
 	cg          *CallGraph
 	domCache    map[*ssa.Function]*domInfo
 	helperSites map[*ssa.Function][]*ssa.Call
+	memW        map[*ssa.Function]bool
 }
 
 // short strips the module prefix from a qualified name.
